@@ -299,3 +299,53 @@ def wide_group_cases(draw, names_strategy=None, max_members=24, sanitize=None, g
     sels.append(["Root"])
     sels.append(sorted(["Root"] + names_m[:lo]))     # members without their holder (when there is one)
     return {"model": {"root": root, "ctcs": ctcs}, "selections": sels}
+
+
+@st.composite
+def twin_subtree_models(draw, profile=None, with_ctcs=False):
+    """Two (or three) sibling sub-trees that are rearrangements of one another: the same relation kinds and the same
+    child shapes, but the children attached to other relations, or two cardinalities exchanged, or nothing changed but
+    the names.  Anything that summarises a sub-tree by a key (shape, size, kinds) must still tell them apart."""
+    import copy
+    # (2-4 features per sub-tree: the oracles enumerate configurations, 2 x 4 + 1 features stay cheap)
+    base = draw(S.model_specs(profile or S.BOOLEAN_ANY, 2, 4, with_ctcs=False, allow_wide=False))["root"]
+
+    def rename(f, tag):
+        f["name"] = f["name"] + tag
+        for r in f["rels"]:
+            for c in r["children"]:
+                rename(c, tag)
+    subs = []
+    for t in range(2 if len(list(build.iter_feats(base))) > 3 else draw(st.integers(2, 3))):
+        sub = copy.deepcopy(base)
+        rename(sub, f"_{t}")
+        owners = [f for f, _ in build.iter_feats(sub) if len(f["rels"]) >= 2]
+        how = draw(st.integers(0, 3)) if t else 0
+        if how == 1 and owners:
+            o = draw(st.sampled_from(owners))
+            i, j = draw(st.permutations(list(range(len(o["rels"])))))[:2]
+            a, b = o["rels"][i], o["rels"][j]
+            if len(a["children"]) == len(b["children"]):
+                a["children"], b["children"] = b["children"], a["children"]       # children change relation
+        elif how == 2 and owners:
+            o = draw(st.sampled_from(owners))
+            i, j = draw(st.permutations(list(range(len(o["rels"])))))[:2]
+            a, b = o["rels"][i], o["rels"][j]
+            if len(a["children"]) == len(b["children"]):
+                a["min"], a["max"], b["min"], b["max"] = b["min"], b["max"], a["min"], a["max"]   # cardinalities exchanged
+        elif how == 3:
+            for f, _ in build.iter_feats(sub):
+                if len(f["rels"]) >= 2 and draw(st.booleans()):
+                    f["rels"].reverse()
+        subs.append(sub)
+    kind = draw(st.sampled_from(["optional", "mandatory", "group"]))
+    if kind == "group" and len(subs) >= 2:
+        lo = draw(st.integers(0, len(subs)))
+        rels = [build.rel(lo, draw(st.integers(max(lo, 1), len(subs))), subs)]
+    else:
+        rels = [build.rel(1 if kind == "mandatory" else 0, 1, [s_]) for s_ in subs]
+    model = {"root": build.feat("Root", rels), "ctcs": []}
+    if with_ctcs:
+        nm = build.names(model)
+        model["ctcs"] = [{"name": "C0", "ast": ["IMPLIES", ["T", draw(st.sampled_from(nm))], ["T", draw(st.sampled_from(nm))]]}]
+    return model
